@@ -106,6 +106,7 @@ type Node struct {
 	BU    *spi.BlockUtils
 	Store *spi.RecStorage
 	Mem   *spi.Membership
+	Comm  *spi.Comm
 	// main-loop mimic
 	maxSync *uint64
 	// the worker's two one-slot inboxes (sync, election): filled by the main-loop half of a step, emptied by the worker half
@@ -191,8 +192,9 @@ func (w *World) newNode(id string) *Node {
 	n.St = state.NewState()
 	n.BU = &spi.BlockUtils{Node: id, Log: w.Log}
 	n.Store = &spi.RecStorage{Storage: storage.NewInMemoryStorage(), Node: id, Log: w.Log}
-	n.Mem = &spi.Membership{Me: id, Log: w.Log, Committee: w.Cfg.Committee}
+	n.Mem = &spi.Membership{Me: id, Log: w.Log, Committee: w.Cfg.Committee, KeyedByRefTime: true}
 	comm := &spi.Comm{Node: id, Log: w.Log, OnSend: func(to []string, m *interfaces.ConsensusRawMessage) { w.onSend(n, to, m) }}
+	n.Comm = comm
 	cfg := &interfaces.Config{
 		InstanceId:              spi.InstanceId,
 		Communication:           comm,
